@@ -98,8 +98,8 @@ func (d *Device) handleABSEvent(ie *input.InputEvent) {
 	if !analogOk || analog.MappingType != config.AnalogKeySim {
 		// same workaround as for keys: the mapping may have been changed while an emulated key of this axis
 		// was held and the new mapping does not emulate keys with it, release what is still sounding
-		d.AnalogNoteOff(fmt.Sprintf("%d", ie.Event.Code), ie)
-		d.AnalogNoteOff(fmt.Sprintf("%d_neg", ie.Event.Code), ie)
+		d.AnalogNoteOff(fmt.Sprintf("%s/%d", ie.Source.Name, ie.Event.Code), ie)
+		d.AnalogNoteOff(fmt.Sprintf("%s/%d_neg", ie.Source.Name, ie.Event.Code), ie)
 	}
 
 	if !analogOk {
@@ -254,8 +254,8 @@ func (d *Device) handleABSEvent(ie *input.InputEvent) {
 			value = value*2 - 1.0
 		}
 
-		identifier := fmt.Sprintf("%d", ie.Event.Code)
-		identifierNeg := fmt.Sprintf("%d_neg", ie.Event.Code)
+		identifier := fmt.Sprintf("%s/%d", ie.Source.Name, ie.Event.Code) // sub-handlers of one device may share axis codes
+		identifierNeg := fmt.Sprintf("%s/%d_neg", ie.Source.Name, ie.Event.Code)
 
 		switch {
 		case value <= -0.5:
